@@ -12,7 +12,7 @@ T_TxP == IsEvent("txp") /\ TxSeen(Rec[l].sp, Rec[l].pn, Rec[l].cc)
 T_Sent == IsEvent("packet_sent") /\ LET r == Rec[l] IN IF r.sp \in Sp THEN PacketSent(r.sp, r.pn, r.len, r.t) ELSE UNCHANGED rvars
 T_Ack == IsEvent("ack_range") /\ LET r == Rec[l] IN AckRange(r.sp, r.lo, r.hi)
 T_Lost == IsEvent("packet_lost") /\ LET r == Rec[l] IN PacketLost(r.sp, r.pn, r.t)
-T_Metrics == IsEvent("metrics") /\ LET r == Rec[l] IN Metrics(r.srtt, r.latest, r.min_rtt, r.bif, r.pto_count)
+T_Metrics == IsEvent("metrics") /\ LET r == Rec[l] IN IF r.path = 0 THEN Metrics(r.srtt, r.latest, r.min_rtt, r.bif, r.pto_count) ELSE MetricsOtherPath
 T_Discard == IsEvent("space_discarded") /\ (IF Rec[l].sp \in Sp THEN SpaceDiscarded(Rec[l].sp) ELSE UNCHANGED rvars)
 T_TxF == IsEvent("txf") /\ (IF Rec[l].ty = "conn_close" THEN CloseSent ELSE UNCHANGED rvars)
 T_Path == IsEvent("active_path") /\ MorePaths
